@@ -204,15 +204,6 @@ def rule_eq_hash(ctx: Ctx, repo: Repo) -> None:
     if not (init and eq and hs):
         raise AnalysisError("CallTrace lacks __init__/__eq__/__hash__")
     ctx.functions.update({init.fq, eq.fq, hs.fq})
-    stored = {t.attr for x in walk_no_nested(init.node) if isinstance(x, ast.Assign) for t in x.targets if isinstance(t, ast.Attribute) and dotted(t.value) == "self"}
-    others = {t.attr for m in ci.methods.values() if m is not init for x in walk_no_nested(m.node) if isinstance(x, ast.Assign) for t in x.targets
-              if isinstance(t, ast.Attribute) and dotted(t.value) == "self"}
-    hashed = {x.attr for x in ast.walk(hs.node) if isinstance(x, ast.Attribute) and dotted(x.value) == "self"}
-    eq_dict = any(isinstance(x, ast.Compare) and norm(x.left) == "self.__dict__" and norm(x.comparators[0]) == "other.__dict__" for x in ast.walk(eq.node))
-    eq_fields = {x.attr for x in ast.walk(eq.node) if isinstance(x, ast.Attribute) and dotted(x.value) == "self" and x.attr != "__dict__" and x.attr != "__class__"}
-    compared = (stored | others) if eq_dict else eq_fields
-    ctx.check(hashed == compared and bool(hashed), "R-C14.2", ci.fq, "CallTrace hashes exactly the fields it compares (duplicates collapse in the per-function set)",
-              construct=f"compared {sorted(compared)} hashed {sorted(hashed)}")
     # semantic form: two traces are equal iff all four fields are equal, and equal traces hash alike
     from .common import RepoInterp
     f1, f2 = S("func:f1"), S("func:f2")
@@ -257,9 +248,7 @@ def rule_eq_hash(ctx: Ctx, repo: Repo) -> None:
         r = run_method(eq, {pe[0]: base, pe[1]: other})
         ctx.check(r == K(False), "R-C14.2", eq.fq, "traces that differ in any of function / argument types / return type / yield type are different traces (none is absorbed by the per-function set)",
                   construct=f"traces differing only in {fld} compare {r}")
-    bm = repo.fn(ST, "build_module_stubs_from_traces")
-    idx = [x for x in ast.walk(bm.node) if isinstance(x, ast.Call) and dotted(x.func) in ("collections.defaultdict", "defaultdict") and x.args and dotted(x.args[0]) == "set"]
-    ctx.check(len(idx) >= 1, "R-C14.2", bm.fq, "traces are grouped per function in a set", construct=f"{len(idx)} defaultdict(set)")
+    # (grouping of traces per function: decided over all orders, interleavings and duplications by R-C14.1a)
 
 
 def rule_no_process_text(ctx: Ctx, repo: Repo) -> None:
